@@ -1008,6 +1008,22 @@ def bnd6(units, R, functions=None, nonterm=None):
                 g2 = {n: {m for m in g2[n] if m not in down} for n in g2 if n not in down}
                 left = [c for c in _sccs(g2, set(g2)) if len(c) > 1 or c[0] in g2.get(c[0], ())]
             head = min(cfg.nodes[n].line for n in comp)
+            if left:
+                # a position kept as a number and handed to a function of the unit by address: whether that function moves it
+                # forward is followed for cursors that are pointers (char **), not for numbers
+                for m_ in left[0]:
+                    root_ = cfg.nodes[m_].expr
+                    if root_ is None:
+                        continue
+                    for c_ in walk(root_):
+                        if c_.get('k') == 'call' and callee_name(c_) in u.functions:
+                            for a_ in c_['args']:
+                                a0_ = strip_casts(a_)
+                                if a0_.get('k') == 'un' and a0_['op'] == '&' and strip_casts(a0_['e']).get('k') == 'ref' and \
+                                        u.ty(strip_casts(a0_['e']).get('ty0', strip_casts(a0_['e'])['ty']))['c'] == 'int':
+                                    raise AnalysisBroken('BND6: %s: the loop at line %d hands the position %s to %s by address; whether '
+                                                         'the callee moves a position kept as a number forward is not followed'
+                                                         % (fn.where(c_), head, strip_casts(a0_['e'])['n'], callee_name(c_)))
             R.ob('BND6', fn, None, 'loop at line %d advances a cursor on every iteration' % head, not left,
                  'steps: %s' % sorted(set(steps))[:4] if not left else
                  'a cycle through lines %s has no forward step' % sorted({cfg.nodes[n].line for n in left[0]})[:6],
